@@ -1,13 +1,36 @@
 import Rooc.Wire
-import Rooc.Oracle
+import Rooc.WireModel
+import Rooc.LpFormat
+import Rooc.LpOracle
+import Rooc.NumTok
 namespace Rooc.Drv.C17
 open Rooc Sexp
 
-/-- model requests for C17 (run at `Float` for the exact diff, at `Ext Rat` as oracle). -/
+open Rooc.NumTok
+
+/-- model requests for C17 (run at `Float` for the exact diff). -/
 def handle (α : Type) [Arith α] [Wire α] : List Sexp → Sexp
+  | [.atom "lp", lm, toks] =>
+    match (LinModel.dec lm : Option (LinModel α)), decToks toks with
+    | some lm, some tbl => app "ok" [.str (String.ofList (Lp.writeLP (tokOf tbl) lm))]
+    | _, _ => app "err" [.atom "decode"]
+  | [.atom "rownames", lm] =>
+    match (LinModel.dec lm : Option (LinModel α)) with
+    | some lm => app "ok" ((Lp.rowNames 0 lm.rows).map fun n => .str (String.ofList n))
+    | none => app "err" [.atom "decode"]
   | _ => app "err" [.atom "bad-request"]
 
 /-- exact oracle: the PROPERTY evaluated on the implementation's own answer. -/
 def oracle : List Sexp → Sexp
+  | [.atom "check-lp", lm, .str text] =>
+    match (LinModel.dec lm : Option (LinModel LpOracle.Bits)) with
+    | some lm =>
+      if LpOracle.wellFormed lm then LpOracle.checkLP lm text.toList
+      else app "ok" [.atom "outside-quantifier"]
+    | none => app "err" [.atom "decode"]
+  | [.atom "readlp", .str text] =>
+    match Lp.readLP LpOracle.decLex text.toList with
+    | some p => app "ok" [LpOracle.encProblem p]
+    | none => app "err" [.atom "unreadable"]
   | _ => app "err" [.atom "bad-request"]
 end Rooc.Drv.C17
